@@ -15,8 +15,8 @@ Definition poly_const (p : poly) : Z := match p with IEEE => 3988292384 | Castag
 Definition crc_step (pc c : Z) : Z := if Z.odd c then Z.lxor (Z.shiftr c 1) pc else Z.shiftr c 1.
 Definition crc_step8 (pc c : Z) : Z :=
   crc_step pc (crc_step pc (crc_step pc (crc_step pc (crc_step pc (crc_step pc (crc_step pc (crc_step pc c))))))).
-(* one message byte: xor into the low byte, eight shift steps *)
-Definition crc_byte (pc c b : Z) : Z := crc_step8 pc (Z.lxor c b).
+(* one message byte (byte(b): list elements are bytes): xor into the low byte, eight shift steps *)
+Definition crc_byte (pc c b : Z) : Z := crc_step8 pc (Z.lxor c (b mod 256)).
 Definition mask32 := 4294967295.
 Definition crc32 (p : poly) (data : list Z) : Z :=
   Z.lxor (fold_left (crc_byte (poly_const p)) data mask32) mask32.
